@@ -555,7 +555,14 @@ def run(ctx):
     import time
     for name, fn in (("dispatch", dispatch_suite), ("samples", samples_suite), ("sweep", sweep_suite), ("lmtd", lmtd_suite)):
         t0 = time.time()
-        fn(ctx)
+        try:
+            fn(ctx)
+        except Exception as e:  # noqa: BLE001
+            # a suite that needs the regenerated definitions cannot run when the translator refuses the source: that is a
+            # broken tie (already recorded by the build step); the remaining suites still search for a failing input
+            if type(e).__name__ != "Untranslatable":
+                raise
+            ctx.break_(f"translator:{name}-suite", str(e))
         ctx.extra[f"suite_{name}_s"] = round(time.time() - t0, 1)
 
 
